@@ -128,10 +128,12 @@ func (t *TokenBucketFilter) run() {
 
 			return
 		case chunk := <-t.c:
-			if time.Since(lastRefill) > t.minRefillDuration {
-				t.refillTokens(time.Since(lastRefill))
-				lastRefill = time.Now()
-			}
+			// Refill for exactly the time that has passed since the last
+			// refill. Crediting a longer period in one go would hand out
+			// tokens for time during which the bucket was already full.
+			now := time.Now()
+			t.refillTokens(now.Sub(lastRefill))
+			lastRefill = now
 			t.queue.push(chunk)
 			t.drainQueue()
 		}
@@ -139,7 +141,7 @@ func (t *TokenBucketFilter) run() {
 }
 
 func (t *TokenBucketFilter) refillTokens(dt time.Duration) {
-	m := 1000.0 / float64(dt.Milliseconds())
+	m := 1.0 / dt.Seconds()
 	add := (float64(t.rate) / m) / 8.0
 	t.mutex.Lock()
 	defer t.mutex.Unlock()
